@@ -10,10 +10,10 @@ pub fn prop() -> Prop {
     Prop {
         id: "C02",
         level: "model_checking",
-        rule: "values: every string of length <=2 (thorough <=3, and 4 over an 8-character core) over a 49-character alphabet (all C0 controls, DEL, quote, backslash, slash, U+0080, U+00FF, U+2028/9, U+D7FF, U+E000, U+FFFD, U+FFFF, U+10000, U+1F603, U+10FFFF, 'a') as a value, as a member name and inside an array; 26 boundary numbers; 17 computed numbers (results of arithmetic incl. overflow); ~90 containers of depth <=3 with 0/1/2 members and 18 array/object chains of depth 8..64; x 3 styles x utf8 on/off x 4 row separators; each case = 2 runs (output fed back); non-trivial = a character outside ' '..'~', a number that is not a small integer, or a non-empty container; distinct by construction",
+        rule: "values: every string of length <=2 (thorough <=3, and 4 over an 8-character core) over a 49-character alphabet (all C0 controls, DEL, quote, backslash, slash, U+0080, U+00FF, U+2028/9, U+D7FF, U+E000, U+FFFD, U+FFFF, U+10000, U+1F603, U+10FFFF, 'a') as a value, as a member name and inside an array; 26 boundary numbers; 17 computed numbers (results of arithmetic incl. overflow); ~90 containers of depth <=3 with 0/1/2 members and 18 array/object chains of depth 8..64; strings of 15..4097 characters with a special character first or last (as value, member name, element) and arrays/objects of 15..1025 members; x 3 styles x utf8 on/off x 4 row separators; each case = 2 runs (output fed back); non-trivial = a character outside ' '..'~', a number that is not a small integer, or a non-empty container; distinct by construction",
         explanation: "stdout is framed by the row separator and each row is read by the independent strict RFC 8259 reader and compared with the reference value; style relations (consise has no insignificant whitespace, one-line no line break, pretty = one element/member per line with indentation c*depth, all three equal after deleting insignificant whitespace) and the byte-for-byte fixpoint of a second run are checked on every case",
         assumptions: COMMON_ASSUMPTIONS.to_vec(),
-        guards: vec!["control-character", "astral-character", "pretty-nested", "computed-non-finite", "separator-without-newline", "utf8-on"],
+        guards: vec!["size-thresholds", "control-character", "astral-character", "pretty-nested", "computed-non-finite", "separator-without-newline", "utf8-on"],
         budget_s: (100, 2400),
         single_worker: false,
         run,
@@ -481,4 +481,28 @@ fn run(ctx: &mut Ctx) {
         check_item(ctx, &it);
     }
     ctx.level_done("containers-depth<=3-and-chains-to-depth-64");
+    // ---- size thresholds: long strings (special character last / first), wide arrays and objects
+    for n in [15usize, 16, 17, 31, 32, 33, 63, 64, 65, 127, 128, 129, 255, 256, 257, 1023, 1024, 1025, 4095, 4096, 4097] {
+        if !ctx.mine() {
+            continue;
+        }
+        ctx.guard("size-thresholds");
+        let body = "a".repeat(n - 1);
+        for sp in ["\u{1}", "\"", "\u{e9}", "\u{2028}", "\u{ffff}", "\n"] {
+            for first in [false, true] {
+                let s = if first { format!("{sp}{body}") } else { format!("{body}{sp}") };
+                let v = V::Str(s.clone());
+                let o = V::Obj(vec![(s.clone(), V::Arr(vec![v.clone()]))]);
+                let it = Item { input: format!("{} {}", to_text(&v), to_text(&o)), args: vec![], expected: Some(vec![v.clone(), o.clone()]), kind: "long-string", nontrivial: true };
+                check_item(ctx, &it);
+            }
+        }
+        if n <= 1025 {
+            let arr = V::Arr((0..n).map(|i| if i % 7 == 3 { V::Arr(vec![V::int(i as i128)]) } else { V::int(i as i128) }).collect());
+            let obj = V::Obj((0..n).map(|i| (format!("k{i}"), if i % 5 == 1 { V::Obj(vec![]) } else { V::int(i as i128) })).collect());
+            let it = Item { input: format!("{} {}", to_text(&arr), to_text(&obj)), args: vec![], expected: Some(vec![arr.clone(), obj.clone()]), kind: "wide-container", nontrivial: true };
+            check_item(ctx, &it);
+        }
+    }
+    ctx.level_done("size-thresholds(strings-to-4097,containers-to-1025-members)");
 }
